@@ -9,47 +9,25 @@ Import ListNotations.
 Local Open Scope string_scope.
 
 (* Writing the settings keeps the value at every path (object keys and array positions)
-   that neither leads to nor passes through plugins.typegen - for every document, whatever
-   its plugins entry is, except a root that is a non-empty array (class C19-4). Absent
-   paths stay absent. *)
-Theorem C19_preserve : forall (c : config) (doc : json) (q : list pel),
-  kf_root_array doc = false -> outside_section q = true ->
-  get q (save_doc c doc) = get q doc.
+   that neither leads to nor passes through plugins.typegen - for every document the save
+   accepts. Absent paths stay absent. *)
+Theorem C19_preserve : forall (c : config) (doc doc' : json) (q : list pel),
+  save_doc c doc = Some doc' -> outside_section q = true -> get q doc' = get q doc.
 Proof. exact preserve. Qed.
 
-Theorem C19_preserve_root_array_refuted : exists c doc q,
-  kf_root_array doc = true /\ outside_section q = true /\ get q (save_doc c doc) <> get q doc.
-Proof. exact preserve_refuted. Qed.
-
-(* The same from the text's reference reading (every decimal denotes the nearest double)
-   to the document written: holds unless serde_json misreads a number (class C19-7). *)
-Theorem C19_preserve_from_reference : forall (c : config) (dref dserde : json) (q : list pel),
-  kf_number_misread dref dserde = false -> kf_root_array dserde = false -> outside_section q = true ->
-  get q (save_doc c dserde) = get q dref.
-Proof. exact preserve_from_reference. Qed.
-
-Theorem C19_preserve_number_misread_refuted : exists c dref dserde q,
-  kf_number_misread dref dserde = true /\ kf_root_array dserde = false /\ outside_section q = true /\
-  get q (save_doc c dserde) <> get q dref.
-Proof. exact preserve_from_reference_refuted. Qed.
+(* The save is refused with an error, before anything is written, exactly when the
+   settings cannot be written into the document: the root is not an object, or plugins
+   exists and is not an object (formerly the silent classes C19-3 and C19-4). *)
+Theorem C19_save_refused : forall (c : config) (doc : json),
+  save_doc c doc = None <-> saveable doc = false.
+Proof. exact save_refused_iff. Qed.
 
 (* Reading the written document back yields the settings written (absent booleans as
-   false), for every document whose plugins entry is absent or an object (any root), and
-   every settings value with default naming conventions (classes C19-3, C19-5). *)
-Theorem C19_roundtrip : forall (c : config) (doc : json),
-  kf_plugins_not_object doc = false -> kf_case_dropped c = false ->
-  load_doc (save_doc c doc) = Some (normalise c).
+   false), for every accepted document and every settings value - the two naming
+   conventions included (formerly class C19-5). *)
+Theorem C19_roundtrip : forall (c : config) (doc doc' : json),
+  save_doc c doc = Some doc' -> load_doc doc' = Some (normalise c).
 Proof. exact roundtrip. Qed.
-
-Theorem C19_roundtrip_plugins_refuted : exists c doc,
-  kf_plugins_not_object doc = true /\ kf_case_dropped c = false /\ load_doc (save_doc c doc) = None
-  /\ save_doc c doc = doc.
-Proof. exact roundtrip_refuted_plugins. Qed.
-
-Theorem C19_roundtrip_case_refuted : exists c doc,
-  kf_plugins_not_object doc = false /\ kf_case_dropped c = true /\
-  load_doc (save_doc c doc) <> Some (normalise c).
-Proof. exact roundtrip_refuted_case. Qed.
 
 (* The settings a run of generate uses are, setting by setting (project path, output
    path, validation library, verbosity of the configuration and of the logger, dependency
@@ -87,30 +65,32 @@ Theorem C19_generate_reject_first : forall (f : fs) (fl : flags),
                      /\ forall p, norm p <> norm (e_output (spec_eff f fl)) -> fs_get f' p = fs_get f p.
 Proof. exact generate_spec. Qed.
 
-(* init with settings that must be refused leaves every file alone - outside C19-2
-   (the target is a readable document: it is rewritten before validation). *)
+(* init with settings that must be refused is refused and leaves every file alone
+   (formerly class C19-2: the file was rewritten first). *)
 Theorem C19_init_reject_first : forall (f : fs) (il : iflags),
-  init_invalid f il = true -> kf_init_writes_first f il = false -> run_init f il = RFail f.
+  init_invalid f il = true -> exists e, run_init f il = RReject e f.
 Proof. exact init_reject_first. Qed.
 
-Theorem C19_init_reject_first_refuted : exists f il e f',
-  init_invalid f il = true /\ kf_init_writes_first f il = true /\
-  run_init f il = RReject e f' /\ f' <> f /\
-  fs_get f' (init_target il) = Some (NDoc (Some (save_doc (init_config il) (JObj [("a", JNum "1")])))).
-Proof. exact init_reject_first_refuted. Qed.
+(* init pointed at a document the settings cannot be written into: an error, every file
+   left alone (formerly: success reported, nothing written / root replaced). *)
+Theorem C19_init_unsaveable : forall (f : fs) (il : iflags) (d : json),
+  fs_get f (init_target il) = Some (NDoc (Some d)) -> saveable d = false ->
+  run_init f il = RFail f \/ exists e, run_init f il = RReject e f.
+Proof. exact init_unsaveable. Qed.
 
-(* what init leaves in its target is save_doc of what was there, so C19_preserve and
-   C19_roundtrip speak about the document the real command writes *)
-Theorem C19_init_document : forall (f : fs) (il : iflags) (d : json),
+(* what a valid init leaves in its target is save_doc of what was there, so C19_preserve
+   and C19_roundtrip speak about the document the real command writes *)
+Theorem C19_init_document : forall (f : fs) (il : iflags) (d d' : json),
+  init_invalid f il = false ->
   fs_get f (init_target il) = Some (NDoc (Some d)) ->
+  save_doc (init_config il) d = Some d' ->
   norm (init_generated il) <> norm (init_target il) ->
-  fs_get (result_fs (run_init f il)) (init_target il) = Some (NDoc (Some (save_doc (init_config il) d))).
+  fs_get (result_fs (run_init f il)) (init_target il) = Some (NDoc (Some d')).
 Proof. exact init_document. Qed.
 
-(* the run-time round-trip oracle accepts the model's own output outside the classes *)
-Theorem C19_oracle_roundtrip_model : forall (c : config) (doc : json),
-  kf_plugins_not_object doc = false -> kf_case_dropped c = false ->
-  roundtrip_b c (load_doc (save_doc c doc)) = true.
+(* the run-time round-trip oracle accepts the model's own output *)
+Theorem C19_oracle_roundtrip_model : forall (c : config) (doc doc' : json),
+  save_doc c doc = Some doc' -> roundtrip_b c (load_doc doc') = true.
 Proof. exact oracle_roundtrip_model. Qed.
 
 (* ---- non-vacuity: concrete non-trivial inputs meet the premises *)
@@ -126,19 +106,42 @@ Definition ex_cfg : config :=
      include_patterns := None; default_parameter_case := "camelCase"; default_field_case := "snake_case";
      force := Some true |}.
 
+Definition ex_saved : json :=
+  match save_doc ex_cfg ex_doc with Some d => d | None => JNull end.
+
 Example C19_ex_preserve :
-  kf_root_array ex_doc = false /\ outside_section [PKey "plugins"; PKey "shell"; PKey "open"] = true
+  save_doc ex_cfg ex_doc = Some ex_saved /\ outside_section [PKey "plugins"; PKey "shell"; PKey "open"] = true
   /\ outside_section [PKey "build"; PKey "list"; PIdx 0] = true
-  /\ get [PKey "plugins"; PKey "shell"; PKey "open"] (save_doc ex_cfg ex_doc) = Some (JBool true)
-  /\ get [PKey "build"; PKey "list"; PIdx 0] (save_doc ex_cfg ex_doc) = Some (JNum "f0.5")
-  /\ get [PKey "plugins"; PKey "typegen"; PKey "extra"] (save_doc ex_cfg ex_doc) = None
-  /\ preserved_b 40 ex_doc (save_doc ex_cfg ex_doc) = true.
+  /\ get [PKey "plugins"; PKey "shell"; PKey "open"] ex_saved = Some (JBool true)
+  /\ get [PKey "build"; PKey "list"; PIdx 0] ex_saved = Some (JNum "f0.5")
+  /\ get [PKey "plugins"; PKey "typegen"; PKey "extra"] ex_saved = None
+  /\ preserved_b 40 ex_doc ex_saved = true.
 Proof. vm_compute. repeat split; reflexivity. Qed.
 
+(* settings with non-default naming conventions (the old C19-5 witness) now read back *)
+Definition ex_cfg_case : config :=
+  {| project_path := "p"; output_path := "o"; validation_library := "none"; verbose := None;
+     visualize_deps := None; include_private := None; type_mappings := None; exclude_patterns := None;
+     include_patterns := None; default_parameter_case := "snake_case"; default_field_case := "kebab-case";
+     force := None |}.
 Example C19_ex_roundtrip :
-  kf_plugins_not_object ex_doc = false /\ kf_case_dropped ex_cfg = false
-  /\ load_doc (save_doc ex_cfg ex_doc) = Some (normalise ex_cfg) /\ normalise ex_cfg <> ex_cfg.
-Proof. split; [reflexivity|]. split; [reflexivity|]. split; [vm_compute; reflexivity|]. discriminate. Qed.
+  load_doc ex_saved = Some (normalise ex_cfg) /\ normalise ex_cfg <> ex_cfg
+  /\ exists d', save_doc ex_cfg_case (JObj [("a", JNum "1")]) = Some d'
+      /\ load_doc d' = Some (normalise ex_cfg_case)
+      /\ default_parameter_case (normalise ex_cfg_case) = "snake_case".
+Proof.
+  split; [vm_compute; reflexivity|]. split; [discriminate|].
+  eexists. split; [vm_compute; reflexivity|]. split; vm_compute; reflexivity.
+Qed.
+
+(* the old C19-3 and C19-4 witnesses are now refused *)
+Example C19_ex_save_refused :
+  saveable (JObj [("productName", JStr "x"); ("plugins", JArr [JNum "1"; JNum "2"])]) = false
+  /\ save_doc dflt (JObj [("productName", JStr "x"); ("plugins", JArr [JNum "1"; JNum "2"])]) = None
+  /\ saveable (JArr [JNum "1"; JObj [("a", JNum "2")]]) = false
+  /\ save_doc dflt (JArr [JNum "1"; JObj [("a", JNum "2")]]) = None
+  /\ saveable ex_doc = true.
+Proof. repeat split; reflexivity. Qed.
 
 Definition ex_fs : fs :=
   [("src-tauri", NProj); ("projA", NProj); ("projB", NProj);
@@ -164,32 +167,40 @@ Example C19_ex_generate_reject :
   /\ spec_invalid ex_fs (spec_eff ex_fs fl) = true /\ run_generate ex_fs fl = RReject (BadLib "yup") ex_fs.
 Proof. vm_compute. repeat split; reflexivity. Qed.
 
+(* the old C19-2 witness (init -v foo on a readable document): refused, nothing written *)
+Definition ex_fs_init : fs :=
+  [("src-tauri", NProj); ("src-tauri/tauri.conf.json", NDoc (Some (JObj [("a", JNum "1")])))].
 Example C19_ex_init_reject :
-  let il := {| i_project := Some "./nope"; i_generated := None; i_output := None; i_validation := None;
+  let il := {| i_project := None; i_generated := None; i_output := None; i_validation := Some "foo";
                i_verbose := false; i_visualize := false |} in
-  init_invalid ex_fs il = true /\ kf_init_writes_first ex_fs il = false /\ run_init ex_fs il = RFail ex_fs.
-Proof. vm_compute. repeat split; reflexivity. Qed.
+  init_invalid ex_fs_init il = true /\ run_init ex_fs_init il = RReject (BadLib "foo") ex_fs_init.
+Proof. vm_compute. split; reflexivity. Qed.
+
+Example C19_ex_init_unsaveable :
+  let il := {| i_project := None; i_generated := None; i_output := None; i_validation := None;
+               i_verbose := false; i_visualize := false |} in
+  let f := [("src-tauri", NProj);
+            ("src-tauri/tauri.conf.json", NDoc (Some (JObj [("a", JNum "1"); ("plugins", JArr [])])))] in
+  init_invalid f il = false /\ run_init f il = RFail f.
+Proof. vm_compute. split; reflexivity. Qed.
 
 Example C19_ex_init_document :
   let il := {| i_project := Some "./projA"; i_generated := Some "./gen"; i_output := Some "./tauri.conf.json";
                i_validation := Some "zod"; i_verbose := false; i_visualize := false |} in
-  exists d e f', fs_get ex_fs (init_target il) = Some (NDoc (Some d))
+  exists d d' e f', init_invalid ex_fs il = false /\ fs_get ex_fs (init_target il) = Some (NDoc (Some d))
+  /\ save_doc (init_config il) d = Some d'
   /\ norm (init_generated il) <> norm (init_target il)
   /\ run_init ex_fs il = RRun e f' /\ e_project e = "./projA" /\ e_output e = "./gen" /\ e_lib e = "zod".
-Proof. vm_compute. eexists. eexists. eexists. repeat split; try reflexivity. discriminate. Qed.
+Proof. vm_compute. eexists. eexists. eexists. eexists. repeat split; try reflexivity. discriminate. Qed.
 
 Print Assumptions C19_preserve.
-Print Assumptions C19_preserve_root_array_refuted.
-Print Assumptions C19_preserve_from_reference.
-Print Assumptions C19_preserve_number_misread_refuted.
+Print Assumptions C19_save_refused.
 Print Assumptions C19_roundtrip.
-Print Assumptions C19_roundtrip_plugins_refuted.
-Print Assumptions C19_roundtrip_case_refuted.
 Print Assumptions C19_precedence.
 Print Assumptions C19_precedence_file_refuted.
 Print Assumptions C19_precedence_verbose_refuted.
 Print Assumptions C19_generate_reject_first.
 Print Assumptions C19_init_reject_first.
-Print Assumptions C19_init_reject_first_refuted.
+Print Assumptions C19_init_unsaveable.
 Print Assumptions C19_init_document.
 Print Assumptions C19_oracle_roundtrip_model.
